@@ -105,6 +105,75 @@ theorem nonce_no_signature_after_attempt (pre post : List NonceOp) (x : SignArgs
     ∀ o ∈ (Nonce.run post (Nonce.sign x (Nonce.run pre nonce).2).1).1, o.isSig = false :=
   (nonce_spent_never_signs post _ (nonce_attempt_spends x _ h).2).1
 
+/-! ### T1 for every spelling of the caller-held nonce, at the ecc level and the psbt level -/
+
+/-- `psbt.musig2.partial_sign` signs with the caller's own object (read off the source each run): for the
+    nonce it is `musig2.sign` on that object, not on a copy. -/
+theorem partial_sign_uses_callers_nonce (kind : NonceKind) (x : SignArgs) (nonce : Bytes) :
+    Nonce.partialSign kind x nonce = Nonce.signK kind x nonce := by
+  have h : Gen.Lifecycle.partialSignPassesNonce = true := by decide
+  simp [Nonce.partialSign, h]
+
+theorem spent_never_signs_every_spelling (kind : NonceKind) (ops : List (Bool × SignArgs)) (nonce : Bytes)
+    (h : Spent nonce) :
+    (∀ o ∈ (Nonce.runK kind ops nonce).1, isSig o = false) ∧ Spent (Nonce.runK kind ops nonce).2 := by
+  induction ops generalizing nonce with
+  | nil => exact ⟨by simp [Nonce.runK], h⟩
+  | cons op ops ih =>
+    obtain ⟨lvl, x⟩ := op
+    simp only [Nonce.runK, partial_sign_uses_callers_nonce, ite_self]
+    obtain ⟨e, he⟩ := signK_spent_errs kind x nonce h
+    have := ih _ (signK_spent_stays kind x nonce h)
+    refine ⟨?_, this.2⟩
+    intro o ho
+    simp only [List.mem_cons] at ho
+    rcases ho with rfl | ho
+    · rw [he]; rfl
+    · exact this.1 o ho
+
+/-- **Single use, every spelling, both levels.**  Whatever object the caller holds the nonce in
+    (bytearray, writable memoryview, bytes / read-only view, hex text) and whichever entry point each
+    attempt goes through (`musig2.sign` or `psbt.musig2.partial_sign`, different sessions included), at
+    most one attempt in any history returns a signature. -/
+theorem nonce_single_use_every_spelling (kind : NonceKind) (ops : List (Bool × SignArgs)) (nonce : Bytes) :
+    ((Nonce.runK kind ops nonce).1.filter isSig).length ≤ 1 := by
+  induction ops generalizing nonce with
+  | nil => simp [Nonce.runK]
+  | cons op ops ih =>
+    obtain ⟨lvl, x⟩ := op
+    simp only [Nonce.runK, partial_sign_uses_callers_nonce, ite_self]
+    cases hr : (Nonce.signK kind x nonce).2 with
+    | error e =>
+      have := ih (Nonce.signK kind x nonce).1
+      simpa [List.filter_cons, isSig] using this
+    | ok s =>
+      have hs := signK_sig_spends kind x nonce s hr
+      have := (spent_never_signs_every_spelling kind ops _ hs).1
+      have hf : (Nonce.runK kind ops (Nonce.signK kind x nonce).1).1.filter isSig = [] := by
+        rw [List.filter_eq_nil_iff]
+        intro o ho; simp [this o ho]
+      simp [List.filter_cons, isSig, hf]
+
+/-- **An immutable nonce is one nothing can spend** (the source's own words): held as `bytes`, a
+    read-only view or hex text, no attempt at either level ever returns a signature, and the object is
+    left as it was. -/
+theorem immutable_nonce_never_signs (kind : NonceKind) (hk : kind = .frozen ∨ kind = .text)
+    (ops : List (Bool × SignArgs)) (nonce : Bytes) :
+    (∀ o ∈ (Nonce.runK kind ops nonce).1, isSig o = false) ∧ (Nonce.runK kind ops nonce).2 = nonce := by
+  induction ops with
+  | nil => exact ⟨by simp [Nonce.runK], rfl⟩
+  | cons op ops ih =>
+    obtain ⟨lvl, x⟩ := op
+    simp only [Nonce.runK, partial_sign_uses_callers_nonce, ite_self]
+    obtain ⟨h1, e, he⟩ := signK_immutable kind hk x nonce
+    rw [h1]
+    refine ⟨?_, ih.2⟩
+    intro o ho
+    simp only [List.mem_cons] at ho
+    rcases ho with rfl | ho
+    · rw [he]; rfl
+    · exact ih.1 o ho
+
 /-! ## T2 — wiped / closed is absorbing -/
 
 /-- The facts about the source the theorem needs hold of the statement lists read off
@@ -373,6 +442,25 @@ theorem lru_call_transparent {χ κ ν : Type} [DecidableEq κ] (f : χ → ν) 
     · cases heq; exact sound x y hy.symm
     · exact h k v' hm' y hy
 
+/-! ## T4'' — the lazily loaded word-lists, under every interleaving of atomic publications -/
+
+/-- **A reader never sees the count ahead of the words.**  With the publication order and the locking read
+    off `WordLists.load_lang` each run (index, words, then count; every read of the count under the lock; every
+    reader calling `load_lang` first): at every moment a second thread can observe the loader, a language it
+    takes for loaded has its index and its words.  (Atomic assignments are the GIL's; real schedules are searched
+    by the cold-start thread phase of the harness, not proved.) -/
+theorem wordlist_reader_never_sees_count_before_words :
+    wordlistSafe Gen.Lifecycle.wordlistPublishOrder Gen.Lifecycle.wordlistFastPath = true ∧
+    Gen.Lifecycle.wordlistReadersLoadFirst = true := by
+  decide
+
+/-- and the order matters exactly where a lock-free fast path exists: count-first is safe under the lock and
+    unsafe beside a fast path; count-last is safe either way. -/
+theorem wordlist_order_matters_with_fast_path :
+    wordlistSafe [.count, .index, .words] false = true ∧ wordlistSafe [.count, .index, .words] true = false ∧
+    wordlistSafe [.index, .words, .count] true = true := by
+  decide
+
 /-! ## T4' — key-soundness of the curve key (the hypothesis of T4, for every cache keyed on a curve) -/
 
 /-- all seven components of a curve's identity (p, a, b, G.x, G.y, n, cofactor) are in the tuple
@@ -515,6 +603,11 @@ example : (Nonce.run [.sign { demoArgs with pk := [] }, .sign demoArgs] demoNonc
 -- an unassembled session does not
 example : (Nonce.run [.sign { demoArgs with ctxOk := false }, .sign demoArgs] demoNonce).1 =
     [.err .value, .sig (beBytes 32 8)] := by decide
+-- held as bytes the nonce signs nothing, at either level; held in a writable view it signs once
+example : (Nonce.runK .frozen [(false, demoArgs), (true, demoArgs)] demoNonce).1 = [.error .foreign, .error .foreign] := by
+  decide
+example : (Nonce.runK .view [(true, demoArgs), (false, demoArgs)] demoNonce).1 = [.ok (beBytes 32 8), .error .value] := by
+  decide
 -- a live signer signs, a wiped one does not
 example : (Signer.run dsaCode [.sign true, .enter, .sign true, .exit, .sign true] (Signer.init dsaCode true)).1 =
     [.sig, .self_, .sig, .none_, .err .value] := by decide
